@@ -5,6 +5,7 @@ import (
 	"net"
 	"regexp"
 	"strconv"
+	"sync"
 
 	"github.com/refraction-networking/conjure/pkg/station/geoip"
 	"github.com/refraction-networking/conjure/pkg/station/liveness"
@@ -49,6 +50,10 @@ type RegConfig struct {
 
 	// ConnectingStats records stats related to connecting transports
 	ConnectingStats ConnectingTpStats
+
+	// policyMu guards the parsed block/allow lists above: RegistrationManager.OnReload replaces
+	// them in the live configuration while ingest workers evaluate them.
+	policyMu sync.RWMutex
 }
 
 // ParseBlocklists converts string arrays of blocklisted domains, addresses and
@@ -181,6 +186,8 @@ func (c *RegConfig) ParseOrResolveBlocklisted(provided string) (string, bool) {
 // isBlocklistedCovertAddr checks if the provided host string should be
 // blocked by on of the blocklisted subnets.
 func (c *RegConfig) isBlocklistedCovertAddr(addr net.IP) bool {
+	c.policyMu.RLock()
+	defer c.policyMu.RUnlock()
 	if c.enableCovertAllowlist {
 		// If allowlist check is enabled it takes precedence over blocklist.
 		for _, net := range c.covertAllowlistSubnets {
@@ -205,6 +212,8 @@ func (c *RegConfig) isBlocklistedCovertAddr(addr net.IP) bool {
 // isBlocklistedCovertDomain checks if the provided host string should be
 // blocked by on of the blocklisted Domain patterns.
 func (c *RegConfig) isBlocklistedCovertDomain(provided string) bool {
+	c.policyMu.RLock()
+	defer c.policyMu.RUnlock()
 	for _, pattern := range c.covertBlocklistDomains {
 		if pattern.MatchString(provided) {
 			return true
@@ -217,6 +226,8 @@ func (c *RegConfig) isBlocklistedCovertDomain(provided string) bool {
 // IsBlocklistedPhantom checks if the provided address should be
 // denied by on of the blocklisted Phantom subnets.
 func (c *RegConfig) IsBlocklistedPhantom(addr net.IP) bool {
+	c.policyMu.RLock()
+	defer c.policyMu.RUnlock()
 	for _, net := range c.phantomBlocklist {
 		if net.Contains(addr) {
 			// blocked by IP address
